@@ -49,11 +49,11 @@ static inline typename StringSet::Iterator med3func(
     typename StringSet::Iterator b, typename StringSet::Iterator c,
     size_t depth)
 {
-    typename StringSet::Char va = ss.get_char(*a, depth);
-    typename StringSet::Char vb = ss.get_char(*b, depth);
+    typename StringSet::UChar va = ss.get_char(*a, depth);
+    typename StringSet::UChar vb = ss.get_char(*b, depth);
     if (va == vb)
         return a;
-    typename StringSet::Char vc = ss.get_char(*c, depth);
+    typename StringSet::UChar vc = ss.get_char(*c, depth);
     if (vc == va || vc == vb)
         return c;
     return va < vb ? (vb < vc ? b : (va < vc ? c : a)) :
